@@ -197,6 +197,11 @@ pub fn scenario(fault: Fault, trig: Trigger, queue_nonempty: bool, after: &[usiz
         }
         _ => unreachable!("hierarchy variants were mapped to their fault kind"),
     }
+    // A generous step timeout that never fires (half of the cases): on the
+    // single-threaded executor it moves the whole execution to a helper thread.
+    if fault != Fault::Timeout && seed % 2 == 1 {
+        spec.timeout_ms = 30_000;
+    }
     if let Some(act) = fault_action {
         f.react[3] = vec![act.clone()];
         // Deadlock: the query handler of f queries itself again.
@@ -288,7 +293,7 @@ pub fn scenario(fault: Fault, trig: Trigger, queue_nonempty: bool, after: &[usiz
         spec.cmds.push(Cmd::Event { node: 0, kind: 0 });
         spec.cmds.push(Cmd::Step);
     }
-    let desc = format!("fault={:?} trigger={:?} queue_nonempty={} after={:?}", orig_fault, trig, queue_nonempty, after.iter().map(|k| format!("{:?}", after_call(*k))).collect::<Vec<_>>());
+    let desc = format!("fault={:?} step_timeout_set={} trigger={:?} queue_nonempty={} after={:?}", orig_fault, spec.timeout_ms > 0, trig, queue_nonempty, after.iter().map(|k| format!("{:?}", after_call(*k))).collect::<Vec<_>>());
     Scenario { spec, fault_cmd, expected, fatal, desc }
 }
 
